@@ -330,11 +330,15 @@ class OrderedLockError(DurableExecutionsError):
 
     def __init__(self, message: str, source_exception: Exception | None = None) -> None:
         """Initialize with the message and the exception source"""
-        msg = (
-            f"{message} {type(source_exception).__name__}: {source_exception}"
-            if source_exception
-            else message
-        )
+        try:
+            msg = (
+                f"{message} {type(source_exception).__name__}: {source_exception}"
+                if source_exception
+                else message
+            )
+        except Exception:  # noqa: BLE001
+            # a source exception that cannot be formatted must not replace the lock error with its own failure
+            msg = f"{message} {type(source_exception).__name__}"
         super().__init__(msg)
         self.source_exception: Exception | None = source_exception
 
